@@ -2,6 +2,7 @@ package main
 
 import (
 	"fmt"
+	"sync"
 	"go/token"
 	"go/types"
 	"os"
@@ -103,7 +104,11 @@ func (P *Program) isRepoFunc(fn *ssa.Function) bool {
 }
 
 // tag returns the dynamic type tag for T.
+var tagMu sync.Mutex
+
 func (P *Program) tag(T types.Type) uint64 {
+	tagMu.Lock()
+	defer tagMu.Unlock()
 	k := types.TypeString(T, nil)
 	if t, ok := P.tagOf[k]; ok {
 		return t
@@ -141,7 +146,21 @@ func (P *Program) repoNamedTypes() []types.Type {
 
 // implementers returns the concrete dynamic types (T or *T) from repo packages that
 // implement iface (closed world, DESIGN §2.3.4).
+var implMu sync.Mutex
+var implCache = map[*types.Interface][]types.Type{}
+
 func (P *Program) implementers(iface *types.Interface) []types.Type {
+	implMu.Lock()
+	defer implMu.Unlock()
+	if r, ok := implCache[iface]; ok {
+		return r
+	}
+	out := P.implementers0(iface)
+	implCache[iface] = out
+	return out
+}
+
+func (P *Program) implementers0(iface *types.Interface) []types.Type {
 	var out []types.Type
 	for _, T := range P.repoNamedTypes() {
 		if types.Implements(T, iface) {
@@ -174,4 +193,13 @@ func (P *Program) pos(p token.Pos) string {
 	ps := P.fset.Position(p)
 	f := strings.TrimPrefix(ps.Filename, P.repo+"/")
 	return fmt.Sprintf("%s:%d", f, ps.Line)
+}
+
+func (P *Program) typeOfTag(t uint64) types.Type {
+	tagMu.Lock()
+	defer tagMu.Unlock()
+	if t == 0 || t >= uint64(len(P.tagType)) {
+		return nil
+	}
+	return P.tagType[t]
 }
